@@ -5,6 +5,8 @@ HERE = os.path.dirname(os.path.abspath(__file__))
 sys.path.insert(0, HERE)
 from registry import PROPS, MANIFEST_TEXT, NOT_APPLICABLE
 props = [json.loads(l)['id'] for l in open(os.path.join(HERE, '..', 'properties.jsonl'))]
+ready = set(open(os.path.join(HERE, 'ready.txt')).read().split())
+PROPS = {k: v for k, v in PROPS.items() if k in ready}
 checks = []
 for pid in props:
     if pid not in PROPS:
